@@ -65,6 +65,7 @@ Definition read_ok (e : event) : Prop :=
   match e with
   | ERead _ _ r => r <> RNotComputed /\ r <> RSkip
   | EReflush _ r => r = RRaise E_BATCHING
+  | EBRead _ r => r <> RNotComputed /\ r <> RSkip
   | _ => True
   end.
 
@@ -208,7 +209,7 @@ Qed.
 
 (* logging an event that is no announcement, no body entry *)
 Definition neutral (e : event) : Prop :=
-  match e with ERead _ _ _ | EReflush _ _ => True | _ => False end.
+  match e with ERead _ _ _ | EReflush _ _ | EBRead _ _ => True | _ => False end.
 
 Lemma inv_emit x w e : inv x w -> neutral e -> read_ok e -> inv x (emit w e).
 Proof.
@@ -504,6 +505,7 @@ Proof.
     pose proof (ext_item_set w n (Ok v)) as A.
     destruct (item_set w n (Ok v)) as [w1 [e|]]; cbn in *; auto.
     destruct (nth_error _ j); cbn; auto. eapply ext_trans; [exact A|apply ext_emit].
+  - apply ext_emit.
 Qed.
 
 Lemma ext_exec b acts : forall w, ext w (fst (exec w b acts)).
@@ -549,6 +551,9 @@ Proof.
     rewrite P, Nat.eqb_refl. repeat split; try discriminate; auto.
 Qed.
 
+Lemma batch_reread_ok w b kd : batch_reread w b kd <> RNotComputed /\ batch_reread w b kd <> RSkip.
+Proof. unfold batch_reread. destruct (bout (bat w b)) as [[?|?]|], kd; cbn; split; discriminate. Qed.
+
 Lemma inv_exec1 w b a : inv None w -> b < nb w -> inv None (fst (exec1 w b a)).
 Proof.
   intros I L. destruct a; cbn; auto.
@@ -570,6 +575,7 @@ Proof.
     destruct (nth_error _ j) eqn:E2; cbn; auto. apply inv_emit; cbn; auto.
     apply nth_error_In in E2. pose proof (e_nb _ _ X).
     destruct (sibling_read_spec w1 b n0 kd A ltac:(lia) E2) as (A1 & A2 & _). auto.
+  - apply inv_emit; cbn; auto. apply batch_reread_ok.
 Qed.
 
 Lemma inv_exec b acts : forall w, inv None w -> b < nb w -> inv None (fst (exec w b acts)).
@@ -1098,6 +1104,19 @@ Qed.
 Lemma reflush_refused w b c :
   exec1 w b (AReflush c) = (emit w (EReflush b (RRaise E_BATCHING)), if c then None else Some E_BATCHING).
 Proof. reflexivity. Qed.
+
+(* value()/error() of the batch itself asked by its running body (repaired code): refused with BatchingError
+   while the batch is pending, the stored outcome once the body has cancelled it; nothing but the log changes *)
+Lemma batch_reread_refused w b kd c :
+  let r := batch_reread w b kd in
+  exec1 w b (AReadBatch kd c) = (emit w (EBRead b r), if c then None else raised r) /\
+  (bout (bat w b) = None -> r = RRaise E_BATCHING) /\
+  (forall o, bout (bat w b) = Some o -> r = rep_of kd (Some o)).
+Proof.
+  cbn zeta. split. reflexivity. unfold batch_reread. split.
+  - intros ->. reflexivity.
+  - intros o ->. reflexivity.
+Qed.
 
 (* an on_computed subscriber of item k asks sibling j for its value as soon as k is set by the body: k gets its
    value, the sibling's request is answered as above on the world in which k is complete (BatchingError for a
